@@ -58,6 +58,10 @@ type World struct {
 
 // Env returns the environment every go invocation of the checker uses.
 func Env(goarch string) []string {
+	// packages.Load resolves "go" through the process PATH
+	if !strings.HasPrefix(os.Getenv("PATH"), GoRoot+"/bin:") {
+		os.Setenv("PATH", GoRoot+"/bin:"+os.Getenv("PATH"))
+	}
 	env := []string{}
 	for _, kv := range os.Environ() {
 		k := strings.SplitN(kv, "=", 2)[0]
@@ -70,7 +74,7 @@ func Env(goarch string) []string {
 	env = append(env,
 		"GOFLAGS=-mod=mod", "GOPROXY=off", "GOSUMDB=off", "GOTOOLCHAIN=local", "GOWORK=off",
 		"CGO_ENABLED=0",
-		"PATH="+GoRoot+"/bin:"+os.Getenv("PATH"),
+		"PATH="+os.Getenv("PATH"),
 	)
 	if goarch != "" {
 		env = append(env, "GOARCH="+goarch, "GOOS=linux")
